@@ -208,7 +208,10 @@ class bound_composite_array(base_array):
         cursor = 0
         if not self._SIZE and not self._BOUND:
             while (pos + cursor) < len(data):
-                cursor += self.add()._decode_impl(data, pos + cursor, endianness, terminal=False)
+                consumed = self.add()._decode_impl(data, pos + cursor, endianness, terminal=False)
+                if not consumed:
+                    raise ProphyError("greedy array of zero-size elements cannot consume the remaining bytes")
+                cursor += consumed
         else:
             for _ in xrange(len_hint):
                 cursor += self.add()._decode_impl(data, pos + cursor, endianness, terminal=False)
